@@ -46,10 +46,15 @@ fn gen_stream_table(rng: &mut Rng, id_sorted_only: bool, filler_base: i64) -> Va
     }
     // ... and then the input continues for ever with fresh, ever larger keys
     steps.push(json!({"filler": {"base": filler_base, "stride": 2, "rows": rng.range(1, 3)}}));
-    json!({"parts": [steps], "sorted": !id_sorted_only, "unbounded": true})
+    // (cooperative by itself, like the StreamingTableExec the property speaks about; whether the
+    // optimizer protects a non-cooperative leaf is C19's subject)
+    json!({"parts": [steps], "sorted": !id_sorted_only, "unbounded": true, "coop": true})
 }
 
-const SHAPES: &[&str] = &["filter", "union_all", "limit", "window", "window_reversed", "ordered_agg", "shj", "sort_rejected", "hash_agg_unordered"];
+const SHAPES: &[&str] = &[
+    "filter", "union_all", "limit", "window", "window_reversed", "ordered_agg", "shj", "sort_rejected", "hash_agg_unordered", "partial_sort", "spm", "topk_sorted",
+    "window_lead", "distinct_ordered",
+];
 
 impl Scenario for Unbounded {
     fn name(&self) -> &'static str {
@@ -63,7 +68,7 @@ impl Scenario for Unbounded {
         let mut env = EnvSpec::generate(rng, false);
         env["batch_size"] = json!(*rng.pick(&[1u64, 2, 4, 8]));
         let mut a = gen_stream_table(rng, unsorted, 1000);
-        if shape == "window" || shape == "window_reversed" {
+        if shape == "window" || shape == "window_reversed" || shape == "window_lead" {
             a["sorted"] = json!(false);
             a["order"] = json!("id");
         }
@@ -220,6 +225,54 @@ async fn run(case: Value) -> Outcome {
             };
             ("SELECT a.id, b.id FROM a JOIN b ON a.k = b.k".to_string(), j(&a, &b), j(&a_early, &b_early), false)
         }
+        // ORDER BY (k, v) over an input ordered by k: a partial sort, which can emit a key's rows as soon
+        // as a larger key arrives
+        "partial_sort" => {
+            let f = |rows: &[Row]| cells_of(&rows.iter().collect::<Vec<_>>(), &["id", "k", "v"]);
+            ("SELECT id, k, v FROM a ORDER BY k NULLS FIRST, v".to_string(), f(&a), f(&a_early), false)
+        }
+        // merge of two inputs ordered by k: a row can be emitted once both inputs have passed its key
+        "spm" => {
+            let f = |x: &[Row], y: &[Row]| {
+                let mut v = cells_of(&x.iter().collect::<Vec<_>>(), &["id", "k"]);
+                v.extend(cells_of(&y.iter().collect::<Vec<_>>(), &["id", "k"]));
+                v
+            };
+            ("SELECT id, k FROM a UNION ALL SELECT id, k FROM b ORDER BY k NULLS FIRST".to_string(), f(&a, &b), f(&a_early, &b_early), false)
+        }
+        // ORDER BY the input's own order with a LIMIT: the first n rows, then end-of-stream
+        "topk_sorted" => {
+            let n = n.min(a.len());
+            // ties on k may be broken either way: any n rows whose keys are the n smallest
+            let kth = a.get(n.saturating_sub(1)).map(|r| r.k);
+            let allowed: Vec<&Row> = a.iter().filter(|r| n > 0 && Some(r.k) <= kth).collect();
+            let strictly: Vec<&Row> = a.iter().filter(|r| n > 0 && Some(r.k) < kth).collect();
+            (format!("SELECT id, k FROM a ORDER BY k NULLS FIRST LIMIT {n}"), cells_of(&allowed, &["id", "k"]), cells_of(&strictly, &["id", "k"]), a.len() >= n)
+        }
+        "window_lead" => {
+            let w = |rows: &[Row], all: &[Row]| -> Vec<Cells> {
+                (0..rows.len())
+                    .map(|i| {
+                        let lag = if i > 0 { all[i - 1].v } else { None };
+                        // (the row after the last prefix row is a filler row, whose v is NULL)
+                        let lead = all.get(i + 1).and_then(|r| r.v);
+                        vec![Some(rows[i].id.to_string()), lag.map(|x| x.to_string()), lead.map(|x| x.to_string())]
+                    })
+                    .collect()
+            };
+            ("SELECT id, lag(v) OVER (ORDER BY id), lead(v) OVER (ORDER BY id) FROM a".to_string(), w(&a, &a), w(&a_early, &a), false)
+        }
+        "distinct_ordered" => {
+            let d = |rows: &[Row]| -> Vec<Cells> {
+                let mut ks: Vec<Option<i32>> = rows.iter().map(|r| r.k).collect();
+                ks.dedup();
+                ks.into_iter().map(|k| vec![k.map(|x| x.to_string())]).collect()
+            };
+            // a key is determined once a larger one has arrived
+            let mut req = d(&a_early);
+            req.pop();
+            ("SELECT DISTINCT k FROM a".to_string(), d(&a), req, false)
+        }
         // running sum against the input order: every value depends on all later rows, so it can only
         // be answered at end of input and must be rejected
         "window_reversed" => (
@@ -241,6 +294,7 @@ async fn run(case: Value) -> Outcome {
         Err(e) => {
             // rejected at planning time: allowed by the property's last sentence
             sim::probe("probe.rejected_at_planning");
+            sim::probe(&format!("probe.rejected.{shape}"));
             let _ = e;
             return Outcome::Pass;
         }
@@ -256,6 +310,8 @@ async fn run(case: Value) -> Outcome {
         return violation("blocking-plan-accepted", format!("`{sql}` over an unbounded, unordered input was accepted"));
     }
     sim::probe("probe.accepted");
+    sim::probe(&format!("probe.accepted.{shape}"));
+    sqlsim::probe_plan(&plan);
     if std::env::var_os("VERIF_DEBUG_PLAN").is_some() {
         eprintln!("{}", datafusion_physical_plan::displayable(plan.as_ref()).indent(true));
     }
@@ -267,7 +323,7 @@ async fn run(case: Value) -> Outcome {
     let prefix_batches = |t: &sqlsim::TableSpec| t.scripts.iter().flatten().filter(|s| matches!(s, Step::Batch(_))).count() as u64;
     let need_a = prefix_batches(a_spec) + 600;
     let need_b = prefix_batches(b_spec) + 600;
-    let uses_b = matches!(shape.as_str(), "union_all" | "shj");
+    let uses_b = matches!(shape.as_str(), "union_all" | "shj" | "spm");
     let st_a = sess.tables.iter().find(|t| t.0 == "a").map(|t| std::sync::Arc::clone(&t.1)).unwrap();
     let st_b = sess.tables.iter().find(|t| t.0 == "b").map(|t| std::sync::Arc::clone(&t.1)).unwrap();
     let enough = || {
@@ -312,12 +368,34 @@ async fn run(case: Value) -> Outcome {
     // rows that stem from filler input are outside the oracle
     let filler_cell = |c: &Option<String>, lo: i64| c.as_ref().and_then(|x| x.parse::<i64>().ok()).is_some_and(|x| x >= lo);
     got.retain(|r| match shape.as_str() {
-        "union_all" => !filler_cell(&r[1], crate::data::FILLER_KEY_BASE),
-        "window" | "limit" | "filter" => !filler_cell(&r[0], crate::data::FILLER_ID_BASE),
-        "ordered_agg" => !filler_cell(&r[0], crate::data::FILLER_KEY_BASE),
+        "union_all" | "spm" | "topk_sorted" => !filler_cell(&r[1], crate::data::FILLER_KEY_BASE),
+        "window" | "limit" | "filter" | "partial_sort" | "window_lead" => !filler_cell(&r[0], crate::data::FILLER_ID_BASE),
+        "ordered_agg" | "distinct_ordered" => !filler_cell(&r[0], crate::data::FILLER_KEY_BASE),
         "shj" => !(filler_cell(&r[0], crate::data::FILLER_ID_BASE) || filler_cell(&r[1], crate::data::FILLER_ID_BASE)),
         _ => true,
     });
+    // ordered shapes: what was delivered must be in the requested order
+    if matches!(shape.as_str(), "partial_sort" | "spm" | "topk_sorted") {
+        let key = |r: &Cells| -> (i64, i64, bool) {
+            let k = r[1].as_ref().and_then(|x| x.parse::<i64>().ok()).unwrap_or(i64::MAX);
+            if shape == "partial_sort" {
+                // v ASC NULLS LAST
+                match r[2].as_ref().and_then(|x| x.parse::<i64>().ok()) {
+                    Some(v) => (k, v, false),
+                    None => (k, 0, true),
+                }
+            } else {
+                (k, 0, false)
+            }
+        };
+        for w in got.windows(2) {
+            let (a1, b1) = (key(&w[0]), key(&w[1]));
+            let le = (a1.0, a1.2, a1.1) <= (b1.0, b1.2, b1.1);
+            if !le {
+                return violation("order-lost", format!("`{sql}` delivered {:?} before {:?}", w[0], w[1]));
+            }
+        }
+    }
     // safety: everything delivered is correct for the prefix
     let mut pool = allowed.clone();
     for r in &got {
@@ -346,7 +424,7 @@ async fn run(case: Value) -> Outcome {
     if must_end && !ended {
         return violation("limit-not-terminating", format!("`{sql}`: the LIMIT was reached but the stream did not end while the input continued"));
     }
-    if ended && !must_end && shape != "limit" {
+    if ended && !must_end && shape != "limit" && shape != "topk_sorted" {
         return violation("premature-end", format!("`{sql}` ended although its unbounded input has not"));
     }
     sim::probe_n("probe.rows_delivered", got.len() as u64);
@@ -367,9 +445,9 @@ pub fn check() -> Check {
         property: "C50",
         level: "exploration",
         scenarios: vec![Box::new(Unbounded)],
-        cases_quick: 12_000,
+        cases_quick: 8_000,
         cases_thorough: 300_000,
-        rule: "runs: one query shape (filter/project, UNION ALL, LIMIT n, bounded window frame over the input order, GROUP BY on the ordered key, inner join of two ordered unbounded inputs (symmetric hash join), plus two shapes that must be rejected: ORDER BY on an unordered column and GROUP BY on an unordered key) over StreamingTable-like unbounded inputs declared with their ordering, each delivering 1-6 batches with Pending/virtual delays and then stalling; planned by the real optimizer under 1-4 target partitions; the consumer reads until a virtual hour passes without progress. Safety: every delivered row is determined by the prefix; liveness: every row determined by the prefix minus the last batch of each input has been delivered; LIMIT ends the stream once n rows were seen. distinct = distinct traces",
+        rule: "runs: one query shape (filter/project, UNION ALL, LIMIT n, bounded window frame over the input order, GROUP BY on the ordered key, inner join of two ordered unbounded inputs (symmetric hash join), ORDER BY (k, v) over an input ordered by k (partial sort), ORDER BY k over a UNION ALL of two ordered inputs (sort-preserving merge), ORDER BY k LIMIT n over the ordered input, lag/lead over the input order, DISTINCT on the ordered key, plus shapes that must be rejected: ORDER BY on an unordered column and GROUP BY on an unordered key) over StreamingTable-like unbounded inputs declared with their ordering, each delivering 1-6 batches with Pending/virtual delays and then stalling; planned by the real optimizer under 1-4 target partitions; the consumer reads until a virtual hour passes without progress. Safety: every delivered row is determined by the prefix; liveness: every row determined by the prefix minus the last batch of each input has been delivered; LIMIT ends the stream once n rows were seen. distinct = distinct traces",
         assumptions: vec!["one batch of slack per input is granted to operators that buffer (coalescing, frame look-ahead)", "a group of the ordered aggregation counts as determined once a larger key has arrived"],
         components: json!({
             "real": ["physical planner + SanityCheckPlan / pipeline checks", "SymmetricHashJoinExec", "BoundedWindowAggExec", "ordered aggregation streams", "UnionExec, limits, filters", "StreamingTable-style unbounded scans via TableProvider"],
